@@ -85,8 +85,12 @@ def numeric_rules(P, R, fns, prefix='C13'):
                      key='shift:%s:%s' % (f.name, o['expr']))
             elif o['kind'] == 'signed-shift':
                 n_sh += 1
-                R.ob(prefix + '.SHF.1', o['ok'], w, 'in %s the left shift %s is computed in int and stays below the sign bit: largest result %s' % (f.name, o['expr'], o['hi']),
-                     key='sshift:%s:%s' % (f.name, o['expr']))
+                if '>>' in o['expr'] and '<<' not in o['expr']:
+                    R.ob(prefix + '.SHF.1', o['ok'], w, 'in %s the right shift %s has a signed left operand that is never negative: inferred range [%s, %s]' % (f.name, o['expr'], o['lo'], o['hi']),
+                         key='sshift:%s:%s' % (f.name, o['expr']))
+                else:
+                    R.ob(prefix + '.SHF.1', o['ok'], w, 'in %s the left shift %s is computed in int and stays below the sign bit: largest result %s' % (f.name, o['expr'], o['hi']),
+                         key='sshift:%s:%s' % (f.name, o['expr']))
     return n_idx, n_cp, n_sh
 
 
@@ -561,7 +565,7 @@ def _ret0_block(f, bid):
     return bool(ss) and ss[-1].ev['k'] == 'ret' and const_of(ss[-1].ev.get('val')) == 0 and all(t.ev['k'] in ('ret',) for t in ss)
 
 
-def full_range(P, R, fns, rule='C13.TAB.4', parts=('copy', 'prefix', 'residue')):
+def full_range(P, R, fns, rule='C13.TAB.4', parts=('copy', 'prefix', 'residue', 'fullform')):
     """Necessary conditions of "every valid text is accepted / every prefix bit is compared", read off the same
     numeric analysis: an inferred range is an over-approximation, so when its upper end falls short of what the format
     needs, the full-length case is provably refused or skipped.
@@ -629,6 +633,35 @@ def full_range(P, R, fns, rule='C13.TAB.4', parts=('copy', 'prefix', 'residue'))
                             R.ob(rule, cmax == width, P.relloc(f.blocks[b]['term'].get('loc')) if f.blocks[b].get('term', {}).get('loc') else f,
                                  'in %s a parsed prefix length is refused exactly above %d, the width of the %d-byte address it fills (refused above %d)' % (f.name, width, psz, cmax),
                                  key='reach:prefix:%s' % f.name)
+        # -- fullform --------------------------------------------------------------------------------
+        # the text with all groups written out (no "::") is accepted: where the arm for "the address ends here" reports
+        # the full prefix length, the state "no gap was seen" (the gap marker still at its initial value, the array
+        # extent) is feasible.  Refusing it there refuses every address the printer writes without "::".
+        if 'fullform' in parts:
+            gapv = None
+            ext = None
+            for s in f.sites():
+                if s.ev['k'] == 'decl' and isinstance(const_of(s.ev.get('init')), int):
+                    for x in (y for t in f.sites() for ex in _event_exprs(t.ev) for y in walk(ex)):
+                        if x.get('k') == 'mem' and x.get('field') == 'in6' and isinstance(x.get('arr'), int) and x['arr'] == const_of(s.ev['init']):
+                            gapv, ext = s.ev['var'], x['arr']
+                            break
+                if gapv:
+                    break
+            if gapv:
+                an = an or numeric.Analysis(f)
+                for s in f.stores():
+                    l = s.ev.get('lhs') or {}
+                    if s.ev['k'] == 'store' and s.ev.get('op') == '=' and l.get('k') == 'un' and l.get('op') == '*' and isinstance(const_of(s.ev.get('rhs')), int) and const_of(s.ev['rhs']) == 16 * ext:
+                        # only the arm that stores a group right before (the terminator arm), not the trailing-text arms
+                        if not any(t.ev['k'] == 'store' and (t.ev.get('lhs') or {}).get('k') == 'idx' for t in f.block_sites(s.bid)[:s.idx] + [u for e in f.inn[s.bid] for u in f.block_sites(e.src)] +
+                                   [u for e in f.inn[s.bid] for e2 in f.inn[e.src] for u in f.block_sites(e2.src)]):
+                            continue
+                        sts = an.at(s)
+                        feas = any(o.bounds(gapv)[0] == ext for o in sts)
+                        n += 1
+                        R.ob(rule, feas, s, 'where %s reports the full prefix length after the last group, "no gap seen" (%s == %d) is a feasible state: the fully written form is accepted' % (f.name, gapv, ext),
+                             key='reach:fullform:%s' % f.name)
         # -- residue ---------------------------------------------------------------------------------
         if 'residue' in parts:
             ins = [p for p in f.param_info if p.get('t', '').startswith('const') and 'inaddr' in p.get('t', '')]
@@ -670,6 +703,7 @@ def run(P, R, tier):
     mask_forms(P, R, fns)
     from .. import rules as _rules
     _rules.no_static_locals(P, R, 'C13.WMC.1', fns, 'address code')
+    _rules.narrowing_locals(P, R, 'C13.WID.1', fns)
     R.floor('C13.TAB.5', 3, 'view width, output form, pending group')
     R.floor('C13.NULL.1', 2, 'optional prefix-length outputs of the parser and its helper')
     R.floor('C13.INIT.1', 2, 'uses of the dotted-quad helper\'s output')
